@@ -1121,6 +1121,18 @@ func (in *inliner) unrollLiteralRanges(p *packages.Package, f *ast.File) {
 			return x.Op != token.ARROW && pure(x.X)
 		case *ast.FuncLit:
 			return true // creating a closure has no effect; what it captures is read when it is called
+		case *ast.CompositeLit:
+			// a row of a table of structs
+			for _, el := range x.Elts {
+				if kv, isKV := el.(*ast.KeyValueExpr); isKV {
+					if !pure(kv.Value) {
+						return false
+					}
+				} else if !pure(el) {
+					return false
+				}
+			}
+			return true
 		}
 		return false
 	}
@@ -1224,7 +1236,17 @@ func (in *inliner) unrollLiteralRanges(p *packages.Package, f *ast.File) {
 		}
 		var out []ast.Stmt
 		for _, e := range cl.Elts {
-			bind := &ast.AssignStmt{Lhs: []ast.Expr{ast.NewIdent(val.Name)}, Tok: token.DEFINE, Rhs: []ast.Expr{&ast.CallExpr{Fun: &ast.ParenExpr{X: copyExpr(at.Elt)}, Args: []ast.Expr{copyExpr(e)}}}}
+			var rhs ast.Expr = &ast.CallExpr{Fun: &ast.ParenExpr{X: copyExpr(at.Elt)}, Args: []ast.Expr{copyExpr(e)}}
+			if row, isRow := e.(*ast.CompositeLit); isRow && row.Type == nil {
+				// `{a, b, c}` with the element type elided: write the type out
+				if _, isPtr := at.Elt.(*ast.StarExpr); isPtr {
+					return nil
+				}
+				rc := copyExpr(row).(*ast.CompositeLit)
+				rc.Type = copyExpr(at.Elt)
+				rhs = rc
+			}
+			bind := &ast.AssignStmt{Lhs: []ast.Expr{ast.NewIdent(val.Name)}, Tok: token.DEFINE, Rhs: []ast.Expr{rhs}}
 			use := &ast.AssignStmt{Lhs: []ast.Expr{ast.NewIdent("_")}, Tok: token.ASSIGN, Rhs: []ast.Expr{ast.NewIdent(val.Name)}}
 			body := copyNode(rs.Body).(*ast.BlockStmt)
 			out = append(out, &ast.BlockStmt{List: append([]ast.Stmt{bind, use}, body.List...)})
@@ -2844,6 +2866,11 @@ func (in *inliner) propagateInjectedFields() {
 			value  ast.Expr
 			valStr string
 			lits   int
+			// derived: the value is computed from constructor arguments that the same literal stores in sibling fields
+			// (`endpointURL: endpoint.String()` next to `endpoint: endpoint`): value is then a template in which
+			// `_holder_.g` stands for the sibling field g of the object read
+			derived  bool
+			siblings []*types.Var
 		}
 		cands := map[*types.Var]*cand{}
 		byType := map[*types.Named][]*cand{}
@@ -2982,6 +3009,36 @@ func (in *inliner) propagateInjectedFields() {
 			}
 			return nil
 		}
+		// fields assigned, incremented or address-taken anywhere outside composite literals
+		writtenFields := map[*types.Var]bool{}
+		for _, f := range p.Syntax {
+			astutil.Apply(f, func(c *astutil.Cursor) bool {
+				sel, ok := c.Node().(*ast.SelectorExpr)
+				if !ok {
+					return true
+				}
+				s2, ok := info.Selections[sel]
+				if !ok || s2.Kind() != types.FieldVal {
+					return true
+				}
+				fv, _ := s2.Obj().(*types.Var)
+				switch par := c.Parent().(type) {
+				case *ast.AssignStmt:
+					for _, l := range par.Lhs {
+						if l == ast.Expr(sel) {
+							writtenFields[fv] = true
+						}
+					}
+				case *ast.UnaryExpr:
+					if par.Op == token.AND {
+						writtenFields[fv] = true
+					}
+				case *ast.IncDecStmt:
+					writtenFields[fv] = true
+				}
+				return true
+			}, nil)
+		}
 		reads := map[*ast.SelectorExpr]*cand{}
 		for _, f := range p.Syntax {
 			for _, d := range f.Decls {
@@ -3013,7 +3070,18 @@ func (in *inliner) propagateInjectedFields() {
 							}
 							r := resolveVal(val, fd, 0)
 							if r == nil {
-								cd.bad = true
+								// a value precomputed from what sibling fields hold
+								tmpl, sibs := derivedTemplate(info, p.Types, val, x)
+								if tmpl == nil {
+									cd.bad = true
+									continue
+								}
+								s := "derived: " + types.ExprString(tmpl)
+								if cd.value == nil {
+									cd.value, cd.valStr, cd.derived, cd.siblings = tmpl, s, true, sibs
+								} else if cd.valStr != s {
+									cd.bad = true
+								}
 								continue
 							}
 							s := types.ExprString(r)
@@ -3087,6 +3155,27 @@ func (in *inliner) propagateInjectedFields() {
 				}
 				cd := reads[sel]
 				if cd == nil || cd.bad || cd.value == nil || cd.lits == 0 {
+					return true
+				}
+				if cd.derived {
+					// the sibling fields must never be written after construction
+					for _, g := range cd.siblings {
+						if writtenFields[g] {
+							return true
+						}
+					}
+					repl := copyExpr(cd.value)
+					holder := sel.X
+					astutil.Apply(repl, nil, func(c2 *astutil.Cursor) bool {
+						if id, isId := c2.Node().(*ast.Ident); isId && id.Name == "_holder_" {
+							c2.Replace(copyExpr(holder))
+						}
+						return true
+					})
+					c.Replace(repl)
+					fileChanged = true
+					in.n++
+					in.inlined["(field) "+cd.nt.Obj().Name()+"."+cd.f.Name()+" = "+cd.valStr]++
 					return true
 				}
 				if qs, ok := cd.value.(*ast.SelectorExpr); ok {
@@ -3260,4 +3349,100 @@ func (in *inliner) remethodise() bool {
 		done = true
 	}
 	return done
+}
+
+// derivedTemplate: val (the initialiser of a new field in the composite literal lit) is built only from identifiers that
+// the same literal stores, as they are, in sibling fields, by selections, parameterless String() calls, conversions and
+// string concatenation - operations that give the same result whenever they are evaluated as long as the sibling fields
+// are never reassigned. Returns val with every such identifier replaced by `_holder_.<sibling>`, and the siblings used.
+func derivedTemplate(info *types.Info, pkg *types.Package, val ast.Expr, lit *ast.CompositeLit) (ast.Expr, []*types.Var) {
+	sibOf := func(id *ast.Ident) *ast.Ident {
+		obj := info.Uses[id]
+		if obj == nil {
+			return nil
+		}
+		for _, el := range lit.Elts {
+			kv, ok := el.(*ast.KeyValueExpr)
+			if !ok {
+				continue
+			}
+			k, ok1 := kv.Key.(*ast.Ident)
+			v, ok2 := ast.Unparen(kv.Value).(*ast.Ident)
+			if ok1 && ok2 && info.Uses[v] == obj {
+				return k
+			}
+		}
+		return nil
+	}
+	var sibs []*types.Var
+	okAll := true
+	used := 0
+	var walk func(e ast.Expr) ast.Expr
+	walk = func(e ast.Expr) ast.Expr {
+		switch x := e.(type) {
+		case *ast.BasicLit:
+			return x
+		case *ast.ParenExpr:
+			return &ast.ParenExpr{X: walk(x.X)}
+		case *ast.Ident:
+			switch o := info.Uses[x].(type) {
+			case *types.Const:
+				return x
+			case *types.Var:
+				if o.Parent() == pkg.Scope() {
+					okAll = false // a package-level variable may change
+					return x
+				}
+				k := sibOf(x)
+				if k == nil {
+					okAll = false
+					return x
+				}
+				// the sibling field object
+				if tv, ok := info.Types[lit]; ok {
+					if st, ok := tv.Type.Underlying().(*types.Struct); ok {
+						for i := 0; i < st.NumFields(); i++ {
+							if st.Field(i).Name() == k.Name {
+								sibs = append(sibs, st.Field(i))
+							}
+						}
+					}
+				}
+				used++
+				return &ast.SelectorExpr{X: ast.NewIdent("_holder_"), Sel: ast.NewIdent(k.Name)}
+			}
+			okAll = false
+			return x
+		case *ast.SelectorExpr:
+			if s, ok := info.Selections[x]; ok && s.Kind() == types.FieldVal {
+				return &ast.SelectorExpr{X: walk(x.X), Sel: x.Sel}
+			}
+			okAll = false
+			return x
+		case *ast.BinaryExpr:
+			if x.Op != token.ADD {
+				okAll = false
+				return x
+			}
+			return &ast.BinaryExpr{X: walk(x.X), Op: x.Op, Y: walk(x.Y)}
+		case *ast.CallExpr:
+			if tv, ok := info.Types[x.Fun]; ok && tv.IsType() && len(x.Args) == 1 {
+				return &ast.CallExpr{Fun: x.Fun, Args: []ast.Expr{walk(x.Args[0])}}
+			}
+			if sel, ok := x.Fun.(*ast.SelectorExpr); ok && sel.Sel.Name == "String" && len(x.Args) == 0 {
+				if s, ok := info.Selections[sel]; ok && s.Kind() == types.MethodVal {
+					return &ast.CallExpr{Fun: &ast.SelectorExpr{X: walk(sel.X), Sel: sel.Sel}}
+				}
+			}
+			okAll = false
+			return x
+		}
+		okAll = false
+		return e
+	}
+	out := walk(val)
+	if !okAll || used == 0 {
+		return nil, nil
+	}
+	return out, sibs
 }
